@@ -102,6 +102,55 @@ def tasks(tier, seed):
 # E2: histories
 
 
+def reference_bytes(obj, legacy):
+    """Reference encoding of a method / header object's current values."""
+    from mc import refcodec, spec_table
+    kind = lib.kind_of(obj)
+    if kind == 'method':
+        m = spec_table.BY_NAME[obj.name]
+        vec = [getattr(obj, a[0]) for a in m.args]
+        return refcodec.enc_method_frame(m, vec, 1, legacy=legacy)[0]
+    if kind == 'header':
+        props = {n: getattr(obj.properties, n) for n, _t, _b in
+                 spec_table.PROPERTIES
+                 if refcodec.is_set(getattr(obj.properties, n))}
+        return refcodec.enc_header_frame(obj.body_size, props, 1,
+                                         legacy=legacy)[0]
+    return None
+
+
+def confirm_alias(p, obj, legacy):
+    """Observable consequence of the library keeping a reference to a
+    mutable member of `obj`?  Returns a description or None."""
+    try:
+        c16events.mutate_all(obj, 'confirm')
+    except Exception as exc:  # noqa
+        return 'mutating the returned object raised %r' % (exc,)
+    try:
+        want = reference_bytes(obj, legacy)
+        if want is not None:
+            got = p.frame.marshal(obj, 1)
+            if got != want:
+                return ('after changing it in place its encoding does not '
+                        'follow its current values: %s instead of %s' % (
+                            got.hex()[:120], want.hex()[:120]))
+    except Exception:  # noqa
+        pass        # not encodable after the change: nothing to compare
+    for idx, (name, ev) in enumerate(EVENTS):
+        if name in TOGGLES or name.startswith('env:'):
+            continue
+        try:
+            res = ev(p, lambda o: None)
+        except Exception as exc:  # noqa
+            res = ['event raised', type(exc).__name__, str(exc)[:200]]
+        res = json.loads(json.dumps(res))
+        if res != _BASE[(idx, legacy)]:
+            return ('after changing it in place the event "%s" gives %s '
+                    'instead of %s' % (name, short(res, 160),
+                                       short(_BASE[(idx, legacy)], 160)))
+    return None
+
+
 def run_history(ctx, hist, check_state=None):
     """Fresh import, replay `hist` (event indices); compare every event with
     its fresh-interpreter baseline.  Returns (state hash, ok)."""
@@ -145,13 +194,22 @@ def run_history(ctx, hist, check_state=None):
         ids = c16events.mutable_ids(obj)
         shared = ids & lib_ids
         if shared:
-            ok = False
-            ctx.violation('alias-lib|{}'.format(hist),
-                          'after {}: a returned {} shares a mutable member '
-                          'with library state'.format(names,
-                                                      type(obj).__name__),
-                          {'kind': 'hist', 'hist': list(hist)},
-                          'disjoint', '%d shared containers' % len(shared))
+            # The library still refers to a mutable member of an object it
+            # handed out.  That alone may be a harmless cache; it is a
+            # violation only if it can be OBSERVED: change the object in
+            # place, then (1) its own encoding must follow its current
+            # values and (2) every event must still give its baseline.
+            ctx.count('returned_objects_still_referenced_by_the_library')
+            what = confirm_alias(p, obj, legacy)
+            if what:
+                ok = False
+                ctx.violation('alias-lib|{}'.format(hist),
+                              'after {}: a returned {} shares a mutable '
+                              'member with library state, and it shows: '
+                              '{}'.format(names, type(obj).__name__, what),
+                              {'kind': 'hist', 'hist': list(hist)},
+                              'disjoint, or without observable effect',
+                              short(what, 300))
         for other, oids in seen.items():
             if kept[other] is not obj and ids & oids:
                 ok = False
@@ -527,15 +585,32 @@ def explore_schedules(ctx, h, shard, bound, cold=False):
 
     stats = sched.explore(runner, bound, check, shard=shard)
     ctx.count('schedules', stats['executions'])
+    if stats['diverged']:
+        ctx.count('schedule_replays_that_diverged', stats['diverged'])
+        ctx.cap('harness "%s": %d schedule replays met other scheduling '
+                'points than planned (the library keeps state between '
+                'executions); their results were judged but their subtrees '
+                'were not expanded' % (name, stats['diverged']))
     ctx.count('schedules_with_preemption', stats['with_preemption'])
     ctx.peak('scheduling_points_per_execution', stats['max_points'])
     # engine self-test: one explored schedule replayed twice is identical
     if last:
         a = runner.run(last[0])
         b = runner.run(last[0])
-        if a.choices != b.choices or a.results != b.results or \
-                a.choices != last[0] or a.results != last[1]:
-            raise sched.Divergence('replay of one schedule differs')
+        if a.results != b.results or a.results != last[1]:
+            if not (a.diverged or b.diverged):
+                ctx.violation('sched-replay|{}'.format(h),
+                              'harness "{}": the same schedule {} gave {} '
+                              'when explored, then {} and {} when replayed'
+                              .format(name, [i for i, c in enumerate(last[0])
+                                             if c], short(last[1], 200),
+                                      short(a.results, 200),
+                                      short(b.results, 200)),
+                              {'kind': 'sched', 'h': h, 'cold': cold,
+                               'choices': list(last[0])},
+                              'same results', 'different results')
+        elif a.choices != b.choices or a.choices != last[0]:
+            ctx.count('self_test_replays_with_other_points')
     return seen_outcomes
 
 
